@@ -443,7 +443,17 @@ def rule_loaders(ck):
         for nm, e in (('rates', rates), ('magnitudes', mws)):
             o = ck.ob('C11-D5.numeric', g, '%s of %s' % (nm, g.short), r[0])
             txt = u(e)
-            is_str_read = "dtype='str'" in txt or 'dtype=str' in txt
+            # the dtype of the read the value itself comes from (a text read consulted only for the number of columns does not count)
+            def outer_reads(x):
+                if isinstance(x, ast.Call) and call_name(x) in ('numpy.genfromtxt', 'numpy.loadtxt'):
+                    return [x]
+                out_ = []
+                for ch in ast.iter_child_nodes(x):
+                    out_.extend(outer_reads(ch))
+                return out_
+            rd = outer_reads(e)
+            is_str_read = any(kw(c_, 'dtype') is not None and u(kw(c_, 'dtype')) in ("'str'", 'builtins.str', 'str', "'U'", "'<U'") for c_ in rd) if rd else \
+                ("dtype='str'" in txt or 'dtype=str' in txt)
             numeric = ('.astype(numpy.float64)' in txt or '.astype(float)' in txt or '.astype(builtins.float)' in txt)
             (o.ok('numeric') if (not is_str_read or numeric) else
              o.fail('the %s come from a file read as strings and are never converted to float: every magnitude lookup / sum then fails or compares text' % nm))
@@ -556,8 +566,20 @@ def rule_rank(ck, funcs=None, rule='C11-D8.rank'):
                     if isinstance(n, ast.Assign) and isinstance(n.value, ast.Call) and callee(P, f, n.value) in ('numpy.atleast_1d', 'numpy.atleast_2d') \
                             and n.value.args and u(n.value.args[0]) == var and isinstance(n.targets[0], ast.Name) and n.targets[0].id == var:
                         atleast = True
+            # the table a loader hands back as the rates is indexed [cell, magnitude bin] by the forecast: rank 2 whatever the number of
+            # cells and bins the file holds (numpy squeezes a single row *and* a single column)
+            as_rates = False
+            if var:
+                for r_ in returns(f):
+                    first = r_.value.elts[0] if isinstance(r_.value, ast.Tuple) and r_.value.elts else r_.value
+                    if first is not None and isinstance(strip_shape(first), ast.Name) and strip_shape(first).id == var and \
+                            not any(isinstance(a_, ast.Assign) and 'reshape' in u(a_.value) for a_ in find_assignments(f, var)):
+                        as_rates = True
             if nd is not None and const_value(nd) == 2:
                 o.ok('ndmin=2')
+            elif as_rates and not atleast and isinstance(kw(c, 'usecols'), ast.AST) and not isinstance(const_value(kw(c, 'usecols')), int):
+                o.fail('the columns read by `%s` are returned as the table of rates without ndmin=2: numpy squeezes a file with a single '
+                       'magnitude column (or a single cell) to rank 1, and the forecast indexes its data as [cell, bin]' % u(c)[:70])
             elif atleast:
                 o.ok('numpy.atleast_*d applied')
             elif header and uses2d:
